@@ -318,6 +318,8 @@ func dependent(a, b opinfo) bool {
 		return false
 	case a.kind == vsched.OpRLock && b.kind == vsched.OpRLock:
 		return false
+	case a.kind == vsched.OpAtomicLoad && b.kind == vsched.OpAtomicLoad:
+		return false
 	}
 	return true
 }
